@@ -139,6 +139,57 @@ def _payload(e):
     return None
 
 
+def recursive_resolution(rep, F):
+    """Resolving the whole tree reaches every node: (1) the marked node types hand parse_representation_recursive on to the *recursive*
+    resolver of their `data`; (2) inside the recursive resolvers (and the closures they give to map/for_each) every recursive call is
+    executed on every path - a call behind `&&` or an early exit leaves the rest of a collection unresolved."""
+    n = 0
+    for k, f in sorted(F.fns.items()):
+        if f.name != "parse_representation_recursive" or f.crate != "saphyr":
+            continue
+        if f.d.get("impl_trait") and f.d["impl_trait"].endswith("AnnotatedNode"):
+            n += 1
+            calls = [(bb, t, ck) for bb, t, ck, fr in f.calls() if ck and "parse_representation" in ck]
+            okd = len(calls) == 1 and calls[0][2].endswith("::parse_representation_recursive")
+            if okd:
+                bb, t, ck = calls[0]
+                recv = cfg.strip_reborrow(cfg.expr_operand(f, t["args"][0], 6))
+                if recv[0] == "ref":
+                    recv = recv[1]
+                okd = recv[0] == "place" and recv[1] == ("param", 1) and [x for x in recv[2] if x != "deref"] == [("field", "data")] \
+                    and cfg.escapes(f, 0, {bb}, ()) is None and cfg.expr_local(f, 0, 6)[0] == "call" and cfg.expr_local(f, 0, 6)[1] == ck
+            rep.check(okd, "recursive-resolver-delegates", short(k), "the marked node type does not hand parse_representation_recursive on to the recursive resolver of its data "
+                      "(nested nodes stay unresolved)", site=f.span, detail=[c[2] for c in calls])
+            continue
+        if not f.file.endswith("macros.rs"):
+            continue
+        bodies = [f] + [g for g in F.fns.values() if (g.d.get("closure_of") or "").startswith(f.key)]
+        loops = f.natural_loops()
+        litems = list(loops.items() if isinstance(loops, dict) else loops)
+        for g in bodies:
+            for bb, t, ck, fr in g.calls():
+                if not (ck and ck.endswith("::parse_representation_recursive")):
+                    continue
+                if g is f:
+                    # written as an explicit loop: within the innermost loop around the call, every round passes the call
+                    inner = [(h, set(body)) for h, body in litems if bb in body]
+                    if not inner:
+                        continue
+                    h, body = min(inner, key=lambda x: len(x[1]))
+                    n += 1
+                    starts = [x for x in f.succs(h) if x in body and x != h]
+                    pth = cfg.path_avoiding(f, starts, [bb], [h]) if bb not in starts else None
+                    rep.check(pth is None, "recursion-unconditional", "%s@%s" % (short(g.key), bb), "a recursive resolution call can be skipped in some round of its loop "
+                              "(short-circuit / early continue): later nodes of the collection are left unresolved", site=site(g, t["sp"]), detail={"path": pth})
+                    continue
+                if True:
+                    n += 1
+                    esc = cfg.escapes(g, 0, {bb}, ())
+                    rep.check(esc is None, "recursion-unconditional", "%s@%s" % (short(g.key), bb), "a recursive resolution call can be skipped on some path (short-circuit / early exit): "
+                              "after one node fails to resolve, later keys and values of the mapping are left unresolved", site=site(g, t["sp"]), detail={"path": esc})
+    rep.floor("recursive resolution calls", n, 10)
+
+
 def eager_deferred_agreement(rep, F):
     """Deferred loading followed by resolution equals eager loading: (1) the loader's scalar arm, on the eager side, always hands the event's
     (text, style, tag) to value_from_cow_and_metadata and, on the deferred side, always stores exactly those three in a Representation;
@@ -410,6 +461,7 @@ def run(tier):
     rep.floor("value_from_cow_and_metadata instances", nvf, 4)
 
     eager_deferred_agreement(rep, F)
+    recursive_resolution(rep, F)
     # owned and borrowed node types resolve scalars with the same function
     from . import C08
     C08.owned_delegates(rep, F, "owned-resolver-delegates")
